@@ -137,6 +137,11 @@ def Draws.read (d : Draws) (k : Nat) : Option (List UInt8 × Draws) :=
 
 def bitLen (n : Nat) : Nat := if n = 0 then 0 else Nat.log2 n + 1
 
+/-- `bytes[0] &= uint8(int(1<<b) - 1)` -/
+def maskFirst (b : Nat) : List UInt8 → List UInt8
+  | [] => []
+  | x :: xs => UInt8.ofNat (x.toNat % 2 ^ b) :: xs
+
 /-- the rejection loop of `crypto/rand.Int` -/
 def randIntLoop : (fuel : Nat) → (max k b : Nat) → Draws → Option (Nat × Draws)
   | 0, _, _, _, _ => none
@@ -144,10 +149,7 @@ def randIntLoop : (fuel : Nat) → (max k b : Nat) → Draws → Option (Nat × 
     match d.read k with
     | none => none
     | some (bs, d') =>
-      let bs' := match bs with
-        | [] => []
-        | x :: xs => UInt8.ofNat (x.toNat % 2 ^ b) :: xs
-      let v := bs'.foldl (fun a x => a * 256 + x.toNat) 0
+      let v := (maskFirst b bs).foldl (fun a x => a * 256 + x.toNat) 0
       if v < max then some (v, d') else randIntLoop fuel max k b d'
 
 /-- `crypto/rand.Int(rand.Reader, max)` for `max > 0`; `none` = the reader failed -/
@@ -247,8 +249,15 @@ def rfPlan (c : RFCfg) (data : List UInt8) (d : Draws) : Outcome (List QFrame ×
 def isPerm (perm : List Nat) (n : Nat) : Bool :=
   perm.length == n && perm.all (· < n) && (List.range n).all (perm.contains ·)
 
+def pick {α : Type} (l : List α) : List Nat → Option (List α)
+  | [] => some []
+  | i :: is =>
+    match l[i]?, pick l is with
+    | some x, some xs => some (x :: xs)
+    | _, _ => none
+
 def permute {α : Type} (l : List α) (perm : List Nat) : Option (List α) :=
-  if isPerm perm l.length then perm.mapM (fun i => l[i]?) else none
+  if isPerm perm l.length then pick l perm else none
 
 /-- `QUICRandomFrames.buildInternal(cryptoData, baseOffset)` with the draws and the shuffle witness -/
 def rfBuild (c : RFCfg) (data : List UInt8) (base : Nat) (d : Draws) (perm : List Nat) :
